@@ -245,6 +245,19 @@ class _Shape(ast.NodeTransformer):
                 return out or [ast.copy_location(ast.Pass(), node)]
         return node
 
+    def visit_List(self, node: ast.List):
+        # [a, *[b, c]] is [a, b, c] (a literal list handed to a `*args`-style splat, e.g. after a helper was substituted)
+        self.generic_visit(node)
+        if isinstance(node.ctx, ast.Load) and any(isinstance(e, ast.Starred) and isinstance(e.value, (ast.List, ast.Tuple)) for e in node.elts):
+            flat = []
+            for e in node.elts:
+                if isinstance(e, ast.Starred) and isinstance(e.value, (ast.List, ast.Tuple)):
+                    flat.extend(e.value.elts)
+                else:
+                    flat.append(e)
+            node.elts = flat
+        return node
+
     def visit_Return(self, node: ast.Return):
         # K17: `return next((ELT for V in IT if C), DEFAULT)` is `for V in IT: if C: return ELT` followed by `return DEFAULT`
         self.generic_visit(node)
@@ -1157,6 +1170,14 @@ def _hoist_nested_helper_calls(tree: ast.Module, defs: dict) -> None:
                     idx += 1   # the inserted assignment; the statement itself is looked at again for further nested calls
 
 
+def _walk_outside_comprehension_targets(node: ast.AST):
+    """Name nodes in Store / Del context that are not (part of) a comprehension target."""
+    skip = {id(n) for c_ in ast.walk(node) if isinstance(c_, ast.comprehension) for n in ast.walk(c_.target)}
+    for n in ast.walk(node):
+        if isinstance(n, ast.Name) and isinstance(n.ctx, (ast.Store, ast.Del)) and id(n) not in skip:
+            yield n
+
+
 def _inline_new_methods(tree: ast.Module, modname: str, known: set[str], log: Optional[list]) -> None:
     """A METHOD that the confirmed tree does not have (plain, class or static method, name defined once in the module, returns
     only in tail position, no super(), its receiver parameter never called or rebound) with one to four call sites, all of them
@@ -1273,7 +1294,11 @@ def _inline_one_use(tree: ast.Module, modname: str, name: str, d: ast.FunctionDe
                             pre.append(ast.copy_location(ast.Assign(targets=[ast.Name(id=pn + suffix, ctx=ast.Store())], value=arg), st))
                             subst[pn] = ast.Name(id=pn + suffix, ctx=ast.Load())
                             stored.discard(pn)
-                    local_names = stored - set(params)
+                    # names bound ONLY as comprehension variables live in the comprehension's own scope: they need no suffix
+                    comp_bound = {n.id for b in body for c_ in ast.walk(b) if isinstance(c_, ast.comprehension)
+                                  for n in ast.walk(c_.target) if isinstance(n, ast.Name)}
+                    plain_bound = {n.id for b in body for n in _walk_outside_comprehension_targets(b)}
+                    local_names = stored - set(params) - (comp_bound - plain_bound)
 
                     class Ren(ast.NodeTransformer):
                         def visit_Name(self, n):
@@ -1465,6 +1490,21 @@ def _fold_new_constants(tree: ast.Module, modname: str, known: set[str]) -> None
         def visit_Name(self, n):
             if isinstance(n.ctx, ast.Load) and n.id in cands:
                 return ast.copy_location(ast.Constant(value=cands[n.id].value), n)
+            return n
+
+        def visit_JoinedStr(self, n):
+            self.generic_visit(n)
+            # f"{x}{'.txt'}" (a folded constant inside an f-string) is f"{x}.txt"
+            parts: list = []
+            for v in n.values:
+                if isinstance(v, ast.FormattedValue) and isinstance(v.value, ast.Constant) and isinstance(v.value.value, str) \
+                        and v.conversion == -1 and v.format_spec is None:
+                    v = ast.copy_location(ast.Constant(value=v.value.value), v)
+                if isinstance(v, ast.Constant) and parts and isinstance(parts[-1], ast.Constant):
+                    parts[-1] = ast.copy_location(ast.Constant(value=parts[-1].value + v.value), parts[-1])
+                else:
+                    parts.append(v)
+            n.values = parts
             return n
 
         def visit_Call(self, n):
